@@ -124,17 +124,19 @@ def run_case(host, defs, procs1, maxprocs, calls_spec):
     rg = R.Rig(plugins=plugins[:procs1])
     problems = []
     try:
-        triggers = rg.install([{'id': 'tpm', 'path': base, 'line': marks['measured'],
-                                'args': {'snapshot': 'no_collect', 'fire_count': '1', 'fire_period': '0'},
-                                'metrics': metric_messages(defs)}])
-        # a tracepoint registered in code on the SAME line (a separate trigger, appended after the service's): its own
-        # metric is reported alongside
-        from deep.api.tracepoint.trigger import build_trigger
+        service_tps = [{'id': 'tpm', 'path': base, 'line': marks['measured'],
+                        'args': {'snapshot': 'no_collect', 'fire_count': '1', 'fire_period': '0'},
+                        'metrics': metric_messages(defs)}]
+        # everything goes through the real TracepointConfigService: the service's tracepoint as a poll answer, and a
+        # tracepoint registered in code on the SAME line (a separate trigger, in force alongside the service's): its own
+        # metric is reported alongside - once, however many configuration updates have gone by
         from deep.api.tracepoint.tracepoint_config import MetricDefinition
-        extra = build_trigger('tp-code', base, marks['measured'], {'snapshot': 'no_collect', 'fire_count': '-1',
-                                                                 'fire_period': '0'}, [],
-                              [MetricDefinition('extra', 'COUNTER')])
-        rg.handler.new_config(list(triggers) + [extra])
+        rg.install_via_service(service_tps)
+        rg.tps.add_custom(base, marks['measured'], {'snapshot': 'no_collect', 'fire_count': '-1', 'fire_period': '0'}, [],
+                          [MetricDefinition('extra', 'COUNTER')])
+        # ... a second registration elsewhere, removed again: two more configuration updates without a poll in between
+        other = rg.tps.add_custom('elsewhere.py', 3, {'snapshot': 'no_collect'}, [], [MetricDefinition('other', 'COUNTER')])
+        rg.tps.remove_custom(other)
         for h, active in ((1, procs1), (2, maxprocs)):
             rg.cfg.plugins = plugins[:active]
             for p in plugins:
